@@ -69,6 +69,8 @@ Variants(S, z, lo) ==
                        ELSE << [g |-> "tree", S |-> S, z |-> z, lo |-> lo, twin |-> 0] >>)
   \* explicit zone tree with a site inside the site:  Site -> { North (a site) -> {Z1}, Z2, ... }  (seed C02d)
   \o << [g |-> "subsite", S |-> S, z |-> z, lo |-> lo] >>
+  \* the same site below a root that is not targeted itself:  Town (a community) -> { Site -> {Z1, Z2, ...} }  (seed C13e)
+  \o << [g |-> "community", S |-> S, z |-> z, lo |-> lo] >>
   \o << [g |-> "translate", S |-> S, z |-> z, lo |-> lo] >>
   \o << [g |-> "scale", S |-> S, z |-> z, lo |-> lo] >>
   \o (IF lo = 0 THEN << [g |-> "mirror", S |-> Mirror(S), z |-> z, lo |-> lo] >> ELSE <<>>)
